@@ -68,8 +68,16 @@ structure AtomicBoolH where
   loc : Loc := .C
   deriving Repr, Inhabited
 
-/-- `ConIterOfIter` without its wrapped iterator: the three atomics and the exact length claimed at construction -/
+/-- `UnsafeCell<Iter>`: the cell that holds the wrapped iterator -/
+structure WrappedCell where
+  deriving Repr
+/-- the wrapped iterator itself, as a value (what `UnsafeCell::into_inner` returns) -/
+structure WrappedIter where
+  deriving Repr, DecidableEq
+
+/-- `ConIterOfIter`: the cell of its wrapped iterator, the three atomics and the exact length claimed at construction -/
 structure IterSelf where
+  iter : WrappedCell := {}
   initial_len : Option Nat
   reserved_counter : CounterSelf := { current := { loc := .R } }
   yielded_counter : CounterSelf := { current := { loc := .Y } }
@@ -199,6 +207,9 @@ structure IterNew where
 /-! ## `usize` arithmetic -/
 
 def m_unsupported {α} (_what : String) : M α := M.failWith .unsupported
+
+/-- `UnsafeCell::into_inner` (by value: the cell is consumed): no atomic access, no call of the wrapped iterator -/
+def m_into_inner (_c : WrappedCell) : M WrappedIter := pure {}
 
 /-- `a + b` on `usize`: overflow is a fault (a debug build panics, a release build wraps) -/
 def op_add (a b : Nat) : M Nat := if a + b < W then pure (a + b) else M.failWith .overflow
